@@ -8,9 +8,9 @@ from props import C06 as base
 
 PROP = "C08"
 META = {
-    "technique": "Coq proof: invariants of an executable model of the linkedBuffer read side with ghost leases (the store is never written by reader operations; parked slices are recycled exactly at the release); tie: differential execution of the real linkedBuffer pair against the model (incl. the model's lease check) + an oracle that re-compares every handed-out slice after every later op",
-    "level_text": "see Props/C08.v for the exact theorems (all stores, all well-formed receive buffers, all covered op sequences); the interleaving with other owners of slots is covered by the harness and by the model-side lease check evaluated on every generated history.",
-    "level_note": "Trusted: coqc kernel; model tied to /repo by sampled differential runs; level (i) only (no real sessions).",
+    "technique": "Coq proof: the pipe's global inductive invariant (ownership of every slot as multiset accounting + ghost leases held by the pinned front slice or a parked slice) preserved by every operation of the model; tie: differential execution of the real linkedBuffer pair against the model (incl. the model's lease check) + an oracle that re-compares every handed-out slice after every later op",
+    "level_text": "Theorem C08: in every state reachable by ANY op sequence (writes, flushes, reads of any size, releases, and allocations / overwrites / frees by other owners interleaved arbitrarily) every live lease's slot is in no free list, is not a slice of the send buffer, is held by no other owner, and denotes exactly the bytes handed out; C08_release_frees: after ReleasePreviousRead every parked slot is free again; C08_lease_only_fast_*: only fast-path ReadBytes/Peek results alias shared memory, every slow-path result is a copy.",
+    "level_note": "Trusted: coqc kernel; model tied to /repo by sampled differential runs; level (i) only (no real sessions); sequential histories; Close leaves parked slices allocated (C09).",
 }
 
 FILES = None
